@@ -225,12 +225,17 @@ def minimise(events, fails_many):
     event."""
     cur = list(events)
     while True:
-        cands = [cur[:i] + cur[i + 1:] for i in range(len(cur) - 1)]
-        cands = [c for c in cands if well_formed(c)]
-        if not cands:
+        idx = [i for i in range(len(cur) - 1) if well_formed(cur[:i] + cur[i + 1:])]
+        if not idx:
             return cur
-        res = fails_many(cands)
-        hit = [c for c, r in zip(cands, res) if r]
-        if not hit:
+        res = fails_many([cur[:i] + cur[i + 1:] for i in idx])
+        removable = [i for i, r in zip(idx, res) if r]
+        if not removable:
             return cur
-        cur = hit[0]
+        # drop every individually removable event at once when that still fails; else one at a time
+        allgone = [e for j, e in enumerate(cur) if j not in removable]
+        if len(removable) > 1 and well_formed(allgone) and fails_many([allgone])[0]:
+            cur = allgone
+        else:
+            i = removable[0]
+            cur = cur[:i] + cur[i + 1:]
